@@ -16,7 +16,8 @@ func seededHistories(seed int64, n int) []history {
 		res = append(res, seededHistory(rng, i, fmt.Sprintf("s%d", i+1)))
 	}
 	// one directed history (the explorer counterexample ReceiverImpl_cex_abortdelete replayed in every run): two uploads
-	// of V1 break inside their second fragment; each has already made room by deleting an older segment of V1
+	// of V1 break inside a later fragment; before 59900e3 each had already made room by deleting an older segment of V1,
+	// which was listed when A1 caught up
 	d := history{ID: "d1", Src: "seed", Tracks: []string{"V1", "A1"}, First: []string{"V1", "A1"}, Tsbd: 4,
 		Order: []upl{{T: "V1", N: 1}, {T: "V1", N: 2}, {T: "V1", N: 3}, {T: "V1", N: 4, A: 2, F: 2, K: 2 * (1 + int(seed%5))},
 			{T: "V1", N: 5, A: 2, F: 3, K: 1 + 2*int(seed%7)}, {T: "A1", N: 1}, {T: "A1", N: 2}, {T: "A1", N: 3}, {T: "V1", N: 4, F: 2}}}
